@@ -621,3 +621,197 @@ End Sem.
 
 Arguments RArg {A} _.
 Arguments RImpl {A} _.
+
+(* ================================================================================================ *)
+(** * Growth round: impl headers (added generic parameters, where-predicates) and non-struct items     *)
+
+(* ------------------------------------------------------------------------------------------------ *)
+(** ** The struct's own generics (syn::Generics): parameters in declaration order, opaque predicates   *)
+
+Inductive gkind := KLife | KTy | KConst.
+
+Definition gkind_eqb (a b : gkind) : bool :=
+  match a, b with KLife, KLife | KTy, KTy | KConst, KConst => true | _, _ => false end.
+
+Record sgenerics := {
+  sg_params : list (gkind * N);      (* `'a`, `T`, `const N: usize` ... in source order, by identifier *)
+  sg_where : list N }.               (* the struct's own where-predicates, opaque *)
+
+Definition ids_of (k : gkind) (sg : sgenerics) : list N :=
+  map snd (filter (fun p => gkind_eqb (fst p) k) (sg_params sg)).
+
+(* as/mod.rs:192-200: the GenericsSearch built from `generics.type_params()/lifetimes()/const_params()` *)
+Definition generics_of (sg : sgenerics) : generics :=
+  {| g_types := ids_of KTy sg; g_lifetimes := ids_of KLife sg; g_consts := ids_of KConst sg |}.
+
+Inductive iparam :=
+| IOrig (k : gkind) (n : N)          (* a parameter of the struct *)
+| ILifeDM                            (* `'__deriveMoreLifetime`        (into_iterator.rs:26-33) *)
+| IIdxT                              (* `__IdxT`                       (index.rs:9, utils.rs:220-236) *)
+| IAsT.                              (* `__AsT: ?Sized`                (as/mod.rs:253-257) *)
+
+Inductive wpred :=
+| WOrig (n : N)                                      (* a predicate of the struct *)
+| WBound (rk : refkind) (fty : ty) (tr : trait).     (* `[&'l [mut]] fty: Trait` *)
+
+Record header := { h_params : list iparam; h_where : list wpred }.
+
+Definition is_life (p : iparam) : bool :=
+  match p with IOrig KLife _ | ILifeDM => true | _ => false end.
+
+(* syn: `ImplGenerics::to_tokens` prints the lifetime parameters first, whatever their position *)
+Definition print_params (l : list iparam) : list iparam :=
+  filter is_life l ++ filter (fun p => negb (is_life p)) l.
+
+Definition orig_params (sg : sgenerics) : list iparam := map (fun p => IOrig (fst p) (snd p)) (sg_params sg).
+Definition orig_where (sg : sgenerics) : list wpred := map WOrig (sg_where sg).
+
+Definition params_of_kind (k : gkind) (sg : sgenerics) : list iparam :=
+  map (fun n => IOrig k n) (ids_of k sg).
+
+(* utils.rs:206-218 add_extra_where_clauses: the NEW predicate first, then the struct's own *)
+Definition add_extra_where (sg : sgenerics) (p : wpred) : list wpred := p :: orig_where sg.
+
+(* utils.rs:174-183 add_extra_generic_param: pushed at the end *)
+Definition add_extra_param (sg : sgenerics) (p : iparam) : list iparam := orig_params sg ++ [p].
+
+(* utils.rs:185-204 add_extra_generic_type_param: lifetimes, type params, the new one, const params *)
+Definition add_extra_type_param (sg : sgenerics) (p : iparam) : list iparam :=
+  params_of_kind KLife sg ++ params_of_kind KTy sg ++ [p] ++ params_of_kind KConst sg.
+
+(* deref.rs:25-43, deref_mut.rs:22-35 *)
+Definition deref_header (m : bool) (info : full_info) (sg : sgenerics) (fty : ty) : header :=
+  {| h_params := print_params (orig_params sg);
+     h_where := if fi_forward info then add_extra_where sg (WBound RNo fty (if m then TrDerefMut else TrDeref))
+                else orig_where sg |}.
+
+(* index.rs:22-34, index_mut.rs:21-33; utils.rs:220-236 is always called with ONE field and sized = true:
+   a plain `__IdxT` *)
+Definition index_header (m : bool) (sg : sgenerics) (fty : ty) : header :=
+  {| h_params := print_params (add_extra_type_param sg IIdxT);
+     h_where := add_extra_where sg (WBound RNo fty (if m then TrIndexMut else TrIndex)) |}.
+
+(* into_iterator.rs:24-42: the lifetime only for the reference kinds; the bound always *)
+Definition iter_header (rk : refkind) (sg : sgenerics) (fty : ty) : header :=
+  {| h_params := print_params (match rk with RNo => orig_params sg | _ => add_extra_param sg ILifeDM end);
+     h_where := add_extra_where sg (WBound rk fty TrIntoIter) |}.
+
+(* as/mod.rs:246-265: only Forwarded touches the generics: the predicate is pushed LAST; blanket adds `__AsT` *)
+Definition as_header (sg : sgenerics) (m : bool) (k : impl_kind) (fty : ty) (t : target) : header :=
+  match k with
+  | Forwarded =>
+    {| h_params := print_params (match t with TgBlanket => add_extra_param sg IAsT | TgTy _ => orig_params sg end);
+       h_where := orig_where sg ++ [WBound RNo fty (TrAs m t)] |}
+  | Direct | Specialized =>
+    {| h_params := print_params (orig_params sg); h_where := orig_where sg |}
+  end.
+
+Definition himpl := (impl * header)%type.
+
+Definition state_himpls (d : dkind) (sg : sgenerics) (info : full_info) (i : nat) (fty : ty) : list himpl :=
+  match d with
+  | DDeref => [(deref_impl false info i fty, deref_header false info sg fty)]
+  | DDerefMut => [(deref_impl true info i fty, deref_header true info sg fty)]
+  | DIndex => [(index_impl false i fty, index_header false sg fty)]
+  | DIndexMut => [(index_impl true i fty, index_header true sg fty)]
+  | DIntoIter => map (fun rk => (iter_impl rk i fty, iter_header rk sg fty)) (ref_types info)
+  end.
+
+Definition derive_state_h (d : dkind) (sg : sgenerics) (sattrs : list attr) (fields : list (ty * list attr))
+  : diag + list himpl :=
+  match select (allowed_of d) sattrs (map snd fields) with
+  | inl e => inl e
+  | inr (i, info) => inr (state_himpls d sg info i (field_ty fields i))
+  end.
+
+Definition as_himpl (sg : sgenerics) (m : bool) (i : nat) (fty : ty) (t : target) : himpl :=
+  let g := generics_of sg in
+  (as_impl g m i fty t, as_header sg m (as_kind_of g fty t) fty t).
+
+Definition derive_as_h (sg : sgenerics) (m : bool) (sattrs : list sattr_as) (fields : list (ty * list fattr_as))
+  : diag + list himpl :=
+  match as_expansions sattrs fields with
+  | inl d => inl d
+  | inr es => inr (flat_map (fun e => match e with (i, fty, c) => map (as_himpl sg m i fty) (as_targets c fty) end) es)
+  end.
+
+(* every forwarded (UFCS) call in a body, as (receiver kind, field type, trait) *)
+Fixpoint calls (e : expr) : list (refkind * ty * trait) :=
+  match e with
+  | EField _ => []
+  | ERef a | ERefMut a => calls a
+  | ECall rk fty tr a _ => (rk, fty, tr) :: calls a
+  | EExtract _ _ _ a => calls a
+  end.
+
+Fixpoint bounds_of (w : list wpred) : list (refkind * ty * trait) :=
+  match w with
+  | [] => []
+  | WBound rk fty tr :: r => (rk, fty, tr) :: bounds_of r
+  | WOrig _ :: r => bounds_of r
+  end.
+
+Fixpoint origs_of (w : list wpred) : list N :=
+  match w with
+  | [] => []
+  | WOrig n :: r => n :: origs_of r
+  | WBound _ _ _ :: r => origs_of r
+  end.
+
+Definition is_orig (p : iparam) : bool := match p with IOrig _ _ => true | _ => false end.
+
+(* ------------------------------------------------------------------------------------------------ *)
+(** ** Enums and unions                                                                               *)
+
+(* utils.rs:376-395 / :247: a third diagnostic, `panic!("cannot derive(X) for union")` *)
+Inductive diag' := DStruct (d : diag) | DUnion.
+
+Fixpoint collect_variant_fields (allowed : list akind) (vs : list (list attr * list (list attr))) : option diag :=
+  match vs with
+  | [] => None
+  | (_, fattrs) :: r =>
+    match collect_metas allowed fattrs with           (* utils.rs:505-556 State::from_variant *)
+    | inl d => Some d
+    | inr _ => collect_variant_fields allowed r
+    end
+  end.
+
+(* utils.rs:365-503 State::new_impl on an enum (AttrParams::new: the same parameter list at every level),
+   then utils.rs:564-566: assert_single_enabled_field panics for DeriveType::Enum *)
+Definition derive_state_enum (d : dkind) (sattrs : list attr) (variants : list (list attr * list (list attr))) : diag :=
+  match get_meta_info (allowed_of d) sattrs with
+  | inl e => e
+  | inr _ =>
+    match collect_metas (allowed_of d) (map fst variants) with
+    | inl e => e
+    | inr _ =>
+      match collect_variant_fields (allowed_of d) variants with
+      | Some e => e
+      | None => DOneField
+      end
+    end
+  end.
+
+Inductive item :=
+| IStruct (sattrs : list attr) (fields : list (ty * list attr))
+| IEnum (sattrs : list attr) (variants : list (list attr * list (list attr)))
+| IUnion.
+
+Definition derive_state_item (d : dkind) (sg : sgenerics) (it : item) : diag' + list himpl :=
+  match it with
+  | IStruct sattrs fields =>
+    match derive_state_h d sg sattrs fields with inl e => inl (DStruct e) | inr l => inr l end
+  | IEnum sattrs variants => inl (DStruct (derive_state_enum d sattrs variants))
+  | IUnion => inl DUnion
+  end.
+
+Inductive item_as :=
+| AStruct (sattrs : list sattr_as) (fields : list (ty * list fattr_as))
+| AEnum          (* as/mod.rs:26-29  "cannot be derived for enums"  - before any attribute is read *)
+| AUnion.        (* as/mod.rs:30-33  "cannot be derived for unions" *)
+
+Definition derive_as_item (sg : sgenerics) (m : bool) (it : item_as) : diag + list himpl :=
+  match it with
+  | AStruct sattrs fields => derive_as_h sg m sattrs fields
+  | AEnum | AUnion => inl DSyn
+  end.
